@@ -72,7 +72,19 @@ Submit(t, u, v) ==
                                    IF f \in DOMAIN t.tv THEN t.tv[f]
                                    ELSE IF f = target THEN v ELSE fill]]
 
-SetDelay(t, d) == [t EXCEPT !.delay = d]
+\* set_input_delay: an increase opens frames right away and fills them with the last input (the
+\* next submission, for user frame lastUser+1, lands on lastUser+1+d); a decrease opens nothing -
+\* later submissions are dropped until the queue has caught up.  Before the first submission
+\* only the delay changes.
+SetDelay(t, d) ==
+  IF t.lastAdded = NullFrame THEN [t EXCEPT !.delay = d]
+  ELSE LET target == t.lastUser + 1 + d
+           first  == t.lastAdded + 1
+           fill   == TruthNewest(t)
+       IN IF target <= first THEN [t EXCEPT !.delay = d]
+          ELSE [t EXCEPT !.delay = d, !.lastAdded = target - 1,
+                         !.tv = [f \in (DOMAIN t.tv) \cup (first..(target - 1)) |->
+                                   IF f \in DOMAIN t.tv THEN t.tv[f] ELSE fill]]
 
 \* forget frames below lo (window maintenance; never the newest)
 TruthTrim(t, lo) ==
